@@ -93,3 +93,32 @@ package typesystem
 //@   option nosafety
 //@   ensures @unionHasOperands err == nil && typeIs(old(rewrite.GetUserset()), "*openfgav1.Userset_Union") ==> len(old(as(rewrite.GetUserset(), "*openfgav1.Userset_Union").Union.GetChild())) >= 1
 //@   ensures @intersectionHasOperands err == nil && typeIs(old(rewrite.GetUserset()), "*openfgav1.Userset_Intersection") ==> len(old(as(rewrite.GetUserset(), "*openfgav1.Userset_Intersection").Intersection.GetChild())) >= 1
+
+// ------------------------------------------------------------------ C17 / C18: type restrictions of a validated relation
+// validation passes only if EVERY type restriction of the relation names a defined type, a userset restriction names a
+// defined relation of that type, and a restriction that carries a condition names a condition defined in the model —
+// for plain, wildcard and userset restrictions alike (tuple validation later trusts the restriction's condition name)
+//@ func (*TypeSystem).IsTuplesetRelation(t, objectType, relation) (b, err)
+//@   property C17 C18
+//@   option nosafety
+//@   modifies nothing
+
+//@ func (*TypeSystem).validateTypeRestrictions(t, objectType, relationName) (err)
+//@   property C17 C18
+//@   option nosafety
+//@   option stable t
+//@   loop 0 invariant forall j int :: 0 <= j && j <= $idx ==> typeDefined(t, relatedTypes[j].GetType()) && (relatedTypes[j].GetCondition() != "" ==> inDom(t.conditions, relatedTypes[j].GetCondition())) && (relatedTypes[j].GetRelation() != "" ==> relationDefined(t, relatedTypes[j].GetType(), relatedTypes[j].GetRelation()))
+//@   ensures @everyRestrictionChecked err == nil ==> forall j int :: 0 <= j && j < len(relatedTypes) ==> typeDefined(t, relatedTypes[j].GetType()) && (relatedTypes[j].GetCondition() != "" ==> inDom(t.conditions, relatedTypes[j].GetCondition())) && (relatedTypes[j].GetRelation() != "" ==> relationDefined(t, relatedTypes[j].GetType(), relatedTypes[j].GetRelation()))
+
+// ------------------------------------------------------------------ C18: every relation of a typesystem carries type info
+// tuple validation consults the type restrictions and the condition of a relation only when HasTypeInfo reports true;
+// New therefore stores every relation with a TypeInfo record (empty when the model gives no metadata for it), under
+// its own name, with the model's rewrite — and the typesystem returned is built over exactly these maps
+//@ func New(model) (t, err)
+//@   property C18 C17
+//@   option nosafety
+//@   option stable model
+//@   ensures @wired err == nil ==> t != nil && t.relations == relations && t.typeDefinitions == tds && t.ttuRelations == ttuRelations && t.conditions == uncompiledConditions
+//@   monitor relationsBuilt
+//@     before call builtin.mapupdate:openfgav1.Relation args m, k, v : assert m == tdRelations && v != nil && v.TypeInfo != nil && v.Name == k && k == relation && v.Rewrite == rewrite
+//@     before call builtin.mapupdate:openfgav1.TypeDefinition args m, k, v : assert m == tds && v == td && k == td.GetType()
